@@ -1,5 +1,7 @@
 package bls12381
 
+import "github.com/cloudflare/circl/ecc/bls12381/ff"
+
 // curve-level predicates as free booleans (set "g1free"): subgroup / on-curve checks are mathematics
 // the harness does not decide; what is decided is that decoding never panics and honours them.
 
@@ -59,4 +61,85 @@ func ZZ_C09_bls12381_SetBytes_length_vs_flag() {
 			zzAssert(b[0]>>7 == 1, "G2: a 96-byte input is accepted only as a compressed encoding")
 		}
 	}
+}
+
+// C09: what the point decoders hand to the field decoder is exactly the coordinate bytes of the
+// input: only the three flag bits of byte 0 are cleared, every other bit of x and y reaches the
+// range check (so "coordinate >= p" and "unused high bits set" are refused by it and an accepted
+// uncompressed encoding re-serialises to the parsed bytes); an accepted infinity encoding has no
+// stray flag or payload bit; an accepted uncompressed encoding has all three flag bits clear.
+//
+//zz: prop=C09 tier=quick backend=bv use=ffuf,ffsign,ffrecord,g1member maxpaths=100000 budget=300
+func ZZ_C09_bls12381_G1_decoder_sees_exact_coordinates() {
+	b := make([]byte, G1Size)
+	zzFill("b", b)
+	var g G1
+	if !zzSymbolic() {
+		zzModelOnly() // relies on the recording stub of the field decoder: no native counterpart
+	}
+	ff.ZZDecoded = nil
+	if g.SetBytes(b) != nil {
+		return
+	}
+	zzReach("accepted")
+	compressed := b[0]>>7 == 1
+	if (b[0]>>6)&1 == 1 {
+		n := G1Size
+		if compressed {
+			n = G1SizeCompressed
+		}
+		zzAssert(b[0]&0x3F == 0, "G1 infinity: no stray flag or payload bit in byte 0")
+		zzAssert(zzBytesEq(b[1:n], make([]byte, n-1)), "G1 infinity: payload is zero")
+		return
+	}
+	x := append([]byte{}, b[:ff.FpSize]...)
+	x[0] &= 0x1F
+	if compressed {
+		zzAssert(len(ff.ZZDecoded) == 1, "G1 compressed: one coordinate decoded")
+		zzAssert(zzBytesEq(ff.ZZDecoded[0], x), "G1 compressed: x bytes reach the range check unmodified")
+		return
+	}
+	zzAssert(b[0]&0xE0 == 0, "G1 uncompressed: flag bits clear")
+	zzAssert(len(ff.ZZDecoded) == 2, "G1 uncompressed: two coordinates decoded")
+	zzAssert(zzBytesEq(ff.ZZDecoded[0], x), "G1 uncompressed: x bytes reach the range check unmodified")
+	zzAssert(zzBytesEq(ff.ZZDecoded[1], b[ff.FpSize:G1Size]), "G1 uncompressed: y bytes reach the range check unmodified")
+}
+
+//zz: prop=C09 tier=quick backend=bv use=ffuf,ffsign,ffrecord,g1member maxpaths=100000 budget=300
+func ZZ_C09_bls12381_G2_decoder_sees_exact_coordinates() {
+	b := make([]byte, G2Size)
+	zzFill("b", b)
+	var g G2
+	if !zzSymbolic() {
+		zzModelOnly() // relies on the recording stub of the field decoder: no native counterpart
+	}
+	ff.ZZDecoded = nil
+	if g.SetBytes(b) != nil {
+		return
+	}
+	zzReach("accepted")
+	compressed := b[0]>>7 == 1
+	if (b[0]>>6)&1 == 1 {
+		n := G2Size
+		if compressed {
+			n = G2SizeCompressed
+		}
+		zzAssert(b[0]&0x3F == 0, "G2 infinity: no stray flag or payload bit in byte 0")
+		zzAssert(zzBytesEq(b[1:n], make([]byte, n-1)), "G2 infinity: payload is zero")
+		return
+	}
+	x := append([]byte{}, b[:ff.Fp2Size]...)
+	x[0] &= 0x1F
+	if compressed {
+		zzAssert(len(ff.ZZDecoded) == 2, "G2 compressed: one Fp2 coordinate decoded")
+		zzAssert(zzBytesEq(ff.ZZDecoded[0], x[:ff.FpSize]), "G2 compressed: x.c1 bytes reach the range check unmodified")
+		zzAssert(zzBytesEq(ff.ZZDecoded[1], x[ff.FpSize:]), "G2 compressed: x.c0 bytes reach the range check unmodified")
+		return
+	}
+	zzAssert(b[0]&0xE0 == 0, "G2 uncompressed: flag bits clear")
+	zzAssert(len(ff.ZZDecoded) == 4, "G2 uncompressed: two Fp2 coordinates decoded")
+	zzAssert(zzBytesEq(ff.ZZDecoded[0], x[:ff.FpSize]), "G2 uncompressed: x.c1 bytes reach the range check unmodified")
+	zzAssert(zzBytesEq(ff.ZZDecoded[1], x[ff.FpSize:]), "G2 uncompressed: x.c0 bytes reach the range check unmodified")
+	zzAssert(zzBytesEq(ff.ZZDecoded[2], b[ff.Fp2Size:ff.Fp2Size+ff.FpSize]), "G2 uncompressed: y.c1 bytes reach the range check unmodified")
+	zzAssert(zzBytesEq(ff.ZZDecoded[3], b[ff.Fp2Size+ff.FpSize:G2Size]), "G2 uncompressed: y.c0 bytes reach the range check unmodified")
 }
